@@ -661,7 +661,7 @@ class Interp:
         for pick, other in ((p, q), (q, p)):
             s2 = st.fork()
             rel = "Le" if kind == "min" else "Ge"
-            if not self.assume_cmp(s2, rel, pick, other, True, oty):
+            if not self.assume_cmp(s2, rel, pick, other, True, oty) or self.infeasible(s2):
                 continue  # infeasible branch
             a2 = subst_term(a, mm, pick)
             b2 = subst_term(b, mm, pick)
@@ -669,6 +669,16 @@ class Interp:
         if len(outs) == 1:
             return outs.pop()
         return None
+
+    def infeasible(self, st):
+        """do the interval facts contradict each other (one elimination step)?"""
+        for key, iv in list(st.iv.items()):
+            if len(key) < 2:
+                continue
+            lo, hi = self.bounds(st, from_lin(dict(key), 0), depth=1)
+            if lo > hi:
+                return True
+        return False
 
     def _decide_core(self, st, op, a, b, oty=None):
         """-> True/False/None ; comparison of two values under the path facts"""
@@ -1125,7 +1135,8 @@ class Interp:
         if k == "switch":
             return self.do_switch(body, frame, st, t, site0)
         if k == "call":
-            return self.do_call(body, frame, st, t, site0, depth)
+            site_c = site0 if n == 1 else (body.path, bb, n)
+            return self.do_call(body, frame, st, t, site_c, depth)
         if k == "tailcall":
             return []
         return []
